@@ -176,6 +176,9 @@ var c20Skip = map[string]string{
 }
 
 func runC20(c *an.Ctx) {
+	// ---- R7: the validated TCP limits reach every stream transport
+	c.Floor("C20-R7", 2)
+	c.Borrow("C20-R7", runC18, func(o an.Obligation) bool { return o.Rule == "C18-R6" && strings.Contains(o.Key, "NewListener") })
 	c20DDR(c)
 	c.Floor("C20-R1", 60)
 	c.Floor("C20-R2", 4)
